@@ -54,6 +54,9 @@ def hexPad (w n : Nat) : Bytes := zpad w (hexNat false n)
 def hexBytes (bs : Bytes) : Bytes :=
   bs.flatMap fun b => [hexCh false (b.toNat / 16), hexCh false (b.toNat % 16)]
 
+/-- Go `strings.TrimRight(s, string(c))`: the longest prefix of `s` that does not end in `c` -/
+def trimRight (c : UInt8) (s : Bytes) : Bytes := (s.reverse.dropWhile (· == c)).reverse
+
 def joinBytes (sep : Bytes) : List Bytes → Bytes
   | [] => []
   | [x] => x
